@@ -48,12 +48,14 @@ SCOPES = {
             ("legacy_witness", _c(1, {0}, 1, SVC | {"legacy"}), "Spec", [], ["StopReturnsOnlyWhenAllDone"], None, "StopReturnsOnlyWhenAllDone"),
             ("legacy_cause", _c(1, {0, 1}, 2, (SVC - {"wait"}) | {"legacy"}), "Spec", [], ["LegacyViolationHasCause"], None, None),
             ("run2", _c(2, {1}, 2, {"run", "stop"}, {"prop"}), "Spec", MC_INV, MC_PROPS, ACTIONS_RUN, None),
+            # run() called with actors that are already running / have finished / were stopped before
+            ("run2_started", _c(2, {0}, 1, {"run", "stop", "start"}, {"prop"}), "Spec", MC_INV, MC_PROPS, ACTIONS_RUN + ["StartStep"], None),
             ("live1", _c(1, {0, 1}, 2, SVC - {"wait"}, {"prop"}), "FairSpec", [], ["StopLeadsToReturn", "RestartHappens"], None, None),
             ("live_run2", _c(2, {0}, 1, {"run", "stop"}, {"prop"}), "FairSpec", [], MC_LIVE, None, None),
         ],
         gen=[
             ("gen1", _c(1, {0, 1, UNL}, 3, SVC, depth=9), 2000),
-            ("genrun", _c(2, {0, 1}, 2, {"run", "stop", "cancel"}, {"prop", "exc"}, depth=9), 500),
+            ("genrun", _c(2, {0, 1}, 2, {"run", "stop", "cancel", "start"}, {"prop", "exc"}, depth=9), 600),
         ],
         sim=[
             ("sim1", _c(1, {0, 1, 2, UNL}, 3, SVC, depth=24), 480),
@@ -68,12 +70,13 @@ SCOPES = {
             ("legacy_witness", _c(1, {0}, 1, SVC | {"legacy"}), "Spec", [], ["StopReturnsOnlyWhenAllDone"], None, "StopReturnsOnlyWhenAllDone"),
             ("legacy_cause", _c(1, {0, 1}, 2, (SVC - {"wait"}) | {"legacy"}), "Spec", [], ["LegacyViolationHasCause"], None, None),
             ("run2", _c(2, {0, 1}, 2, {"run", "stop", "cancel"}, {"prop", "exc"}), "Spec", MC_INV, MC_PROPS, ACTIONS_RUN, None),
+            ("run2_started", _c(2, {1}, 2, {"run", "stop", "start"}, {"prop"}), "Spec", MC_INV, MC_PROPS, ACTIONS_RUN + ["StartStep"], None),
             ("live1", _c(1, {0, 1, UNL}, 3, SVC - {"wait"}, {"prop"}), "FairSpec", [], ["StopLeadsToReturn", "RestartHappens"], None, None),
             ("live_run2", _c(2, {0, 1}, 2, {"run", "stop"}, {"prop"}), "FairSpec", [], MC_LIVE, None, None),
         ],
         gen=[
             ("gen1", _c(1, {0, 1, 2, UNL}, 3, SVC, depth=10), 20000),
-            ("genrun", _c(2, {0, 1}, 2, {"run", "stop", "cancel"}, {"prop", "exc"}, depth=10), 6000),
+            ("genrun", _c(2, {0, 1}, 2, {"run", "stop", "cancel", "start"}, {"prop", "exc"}, depth=10), 6000),
         ],
         sim=[
             ("sim1", _c(1, {0, 1, 2, UNL}, 4, SVC, depth=40), 8000),
@@ -398,7 +401,8 @@ EXERCISE_KEYS = [
     "NoRerunAfterReturnOrCancel/ended_ret", "NoRerunAfterReturnOrCancel/ended_cancelled", "NoRerunAfterReturnOrCancel/ended_base",
     "NoRerunAfterReturnOrCancel/cancel_in_delay", "StartIdempotent/start_while_running", "StartIdempotent/start_after_completion",
     "StopCancelsEverything/stop_with_alive_tasks", "StopReturnsOnlyWhenAllDone/stop_ret", "StopSurfacesErrors/ret_with_error",
-    "StopSurfacesErrors/ret_with_cancel_only", "RunReturnsIffAllFinished/run_ret", "exit_at_point2", "cancel_to_exc", "cancel_to_ret",
+    "StopSurfacesErrors/ret_with_cancel_only", "RunReturnsIffAllFinished/run_ret", "RunReturnsIffAllFinished/run_called_with_running_actor",
+    "RunReturnsIffAllFinished/run_called_with_finished_actor", "exit_at_point2", "cancel_to_exc", "cancel_to_ret",
     "stop_during_delay", "late_task", "extra_error_surfaced",
 ]
 
@@ -444,6 +448,10 @@ def _exercised(rec: dict, wit: dict) -> None:
             alive = any(t["s"] == "alive" for t in e["ts"])
             if e["c"] != "run":
                 wit["StartIdempotent/start_while_running" if alive else "StartIdempotent/start_after_completion"] += 1
+            elif alive:
+                wit["RunReturnsIffAllFinished/run_called_with_running_actor"] += 1  # run() must await it although it does not start it
+            elif e["ts"]:
+                wit["RunReturnsIffAllFinished/run_called_with_finished_actor"] += 1
             if e["n"]:
                 exc_since[a] = 0
                 last[a] = "fresh"
